@@ -411,7 +411,8 @@ def run_shard(spec, ctx):
                 except Exception as e:   # noqa
                     ctx.violation({'part': 'schedule', 'kind': 'filter', 'symptom': 'raises-later:' + type(e).__name__, 'features': feats},
                                   'after schedule %r the cached filter %r raises %s' % (ov, fam[idx][1], type(e).__name__), case)
-        stats = sched.explore(codes, make_ops, check, spec['bound'], max_schedules=800 if ctx.tier == 'quick' else 40000)
+        stats = sched.explore(codes, make_ops, check, spec['bound'], max_schedules=800 if ctx.tier == 'quick' else 40000,
+                              max_seconds=None if ctx.tier == 'quick' else 1500)
         ctx.count('distinct interleavings (trace fingerprints)', len(stats['fingerprints']))
         ctx.count('max decision points in one execution', 0)
         ctx.note('threads=%d bound=%d prefill=%d: %d schedules (by number of preemptions %r, %d left unexplored by the cap), %d distinct '
